@@ -3,6 +3,7 @@ package main
 // Running the real library on a configuration, classifying its errors, dumping the schema it returns.
 
 import (
+	"encoding/json"
 	"fmt"
 	"reflect"
 	"regexp"
@@ -78,6 +79,12 @@ type BType struct {
 	InputFields []BArg   `json:"inputFields"`
 	Interfaces  []int    `json:"interfaces"`
 	Members     []int    `json:"members"`
+	Values      []string `json:"values"`
+	Resolver    bool     `json:"resolver"`
+}
+type BDir struct {
+	Name string `json:"name"`
+	Args []BArg `json:"args"`
 }
 type Dump struct {
 	Table         []BType         `json:"table"`
@@ -87,7 +94,7 @@ type Dump struct {
 	Subscription  *int            `json:"subscription"`
 	PossibleTypes [][]interface{} `json:"possibleTypes"` // [a, [o…]]
 	IsPossible    [][]int         `json:"isPossible"`    // [a, o]
-	DirectiveArgs []*TR           `json:"directiveArgs"` // argument types of Directives()
+	Directives    []BDir          `json:"directives"`    // Directives(): name, arguments
 }
 
 func isNilPtr(t interface{}) bool {
@@ -163,7 +170,7 @@ func sortedKeys(m map[string]graphql.Type) []string {
 // dumpSchema walks everything reachable from the type map and the roots through the public API.
 func dumpSchema(s *graphql.Schema) (*Dump, string) {
 	d := &dumper{ids: map[graphql.Type]int{}}
-	out := &Dump{TypeMap: [][]interface{}{}, PossibleTypes: [][]interface{}{}, IsPossible: [][]int{}, DirectiveArgs: []*TR{}}
+	out := &Dump{TypeMap: [][]interface{}{}, PossibleTypes: [][]interface{}{}, IsPossible: [][]int{}, Directives: []BDir{}}
 	tm := s.TypeMap()
 	fault := ""
 	for _, k := range sortedKeys(tm) {
@@ -188,11 +195,13 @@ func dumpSchema(s *graphql.Schema) (*Dump, string) {
 		if dir == nil {
 			continue
 		}
+		bd := BDir{Name: dir.Name, Args: []BArg{}}
 		for _, a := range dir.Args {
 			if a != nil {
-				out.DirectiveArgs = append(out.DirectiveArgs, d.tref(a.Type))
+				bd.Args = append(bd.Args, BArg{Name: a.PrivateName, Type: d.tref(a.Type)})
 			}
 		}
+		out.Directives = append(out.Directives, bd)
 	}
 	fields := func(fm graphql.FieldDefinitionMap) []BField {
 		names := make([]string, 0, len(fm))
@@ -213,12 +222,13 @@ func dumpSchema(s *graphql.Schema) (*Dump, string) {
 	}
 	for i := 0; i < len(d.order); i++ {
 		t := d.order[i]
-		bt := BType{Kind: kindOfGo(t), Fields: []BField{}, InputFields: []BArg{}, Interfaces: []int{}, Members: []int{}}
+		bt := BType{Kind: kindOfGo(t), Fields: []BField{}, InputFields: []BArg{}, Interfaces: []int{}, Members: []int{}, Values: []string{}}
 		switch x := t.(type) {
 		case *graphql.List, *graphql.NonNull:
 			bt.Name = t.Name() // a wrapper registered in the type map (only with its OfType nil)
 		case *graphql.Object:
 			bt.Name = x.Name()
+			bt.Resolver = x.IsTypeOf != nil
 			bt.Fields = fields(x.Fields())
 			for _, j := range x.Interfaces() {
 				if j != nil {
@@ -227,9 +237,18 @@ func dumpSchema(s *graphql.Schema) (*Dump, string) {
 			}
 		case *graphql.Interface:
 			bt.Name = x.Name()
+			bt.Resolver = x.ResolveType != nil
 			bt.Fields = fields(x.Fields())
+		case *graphql.Enum:
+			bt.Name = x.Name()
+			for _, v := range x.Values() {
+				if v != nil {
+					bt.Values = append(bt.Values, v.Name)
+				}
+			}
 		case *graphql.Union:
 			bt.Name = x.Name()
+			bt.Resolver = x.ResolveType != nil
 			for _, m := range x.Types() {
 				if m != nil {
 					bt.Members = append(bt.Members, d.id(m))
@@ -284,7 +303,7 @@ func dumpSchema(s *graphql.Schema) (*Dump, string) {
 	// types discovered only through PossibleTypes need a table row too
 	for len(out.Table) < len(d.order) {
 		t := d.order[len(out.Table)]
-		out.Table = append(out.Table, BType{Kind: kindOfGo(t), Name: t.Name(), Fields: []BField{}, InputFields: []BArg{}, Interfaces: []int{}, Members: []int{}})
+		out.Table = append(out.Table, BType{Kind: kindOfGo(t), Name: t.Name(), Fields: []BField{}, InputFields: []BArg{}, Interfaces: []int{}, Members: []int{}, Values: []string{}})
 	}
 	return out, fault
 }
@@ -365,7 +384,8 @@ func (d *Dump) canon() map[string]interface{} {
 			ms = append(ms, d.nameK(j))
 		}
 		sort.Strings(ms)
-		types[key] = map[string]interface{}{"kind": t.Kind, "name": t.Name, "fields": fs, "inputFields": ins, "interfaces": ifs, "members": ms}
+		types[key] = map[string]interface{}{"kind": t.Kind, "name": t.Name, "fields": fs, "inputFields": ins, "interfaces": ifs, "members": ms,
+			"values": append([]string{}, t.Values...), "resolver": t.Resolver}
 	}
 	poss := map[string]interface{}{}
 	for _, e := range d.PossibleTypes {
@@ -394,24 +414,42 @@ func (d *Dump) canon() map[string]interface{} {
 		return d.nameK(*p)
 	}
 	das := []string{}
-	for _, t := range d.DirectiveArgs {
-		das = append(das, d.render(t))
+	for _, dir := range d.Directives {
+		as := []string{}
+		for _, a := range dir.Args {
+			as = append(as, a.Name+": "+d.render(a.Type))
+		}
+		das = append(das, "@"+dir.Name+"("+strings.Join(as, ", ")+")")
 	}
-	return map[string]interface{}{"types": types, "possibleTypes": poss, "isPossible": isp, "directiveArgs": das,
+	return map[string]interface{}{"types": types, "possibleTypes": poss, "isPossible": isp, "directives": das,
 		"query": rootName(d.Query), "mutation": rootName(d.Mutation), "subscription": rootName(d.Subscription)}
+}
+
+// jsonRound passes a value through JSON so that it has the generic shape of a decoded driver answer.
+func jsonRound(v map[string]interface{}) map[string]interface{} {
+	b, err := json.Marshal(v)
+	if err != nil {
+		return nil
+	}
+	var out map[string]interface{}
+	if json.Unmarshal(b, &out) != nil {
+		return nil
+	}
+	return out
 }
 
 // ---------------------------------------------------------------- one run of the real code
 
 type realOutcome struct {
-	OK      bool   `json:"ok"`
-	Err     string `json:"err,omitempty"`   // class
-	Msg     string `json:"msg,omitempty"`   // message (for the reader; not compared)
-	Panic   string `json:"panic,omitempty"` // recovered panic value
-	Stage   string `json:"stage,omitempty"` // construct | NewSchema | AppendType#k | dump
-	Dump    *Dump  `json:"dump,omitempty"`
-	Fault   string `json:"fault,omitempty"` // API incoherence seen while dumping
-	Harness string `json:"harness,omitempty"`
+	OK      bool                   `json:"ok"`
+	Err     string                 `json:"err,omitempty"`   // class
+	Msg     string                 `json:"msg,omitempty"`   // message (for the reader; not compared)
+	Panic   string                 `json:"panic,omitempty"` // recovered panic value
+	Stage   string                 `json:"stage,omitempty"` // construct | NewSchema | AppendType#k | dump
+	Dump    *Dump                  `json:"dump,omitempty"`
+	Fault   string                 `json:"fault,omitempty"` // API incoherence seen while dumping
+	Desc    map[string]interface{} `json:"-"`               // the real schema in the wire style of the translated schema
+	Harness string                 `json:"harness,omitempty"`
 }
 
 // runReal builds fresh objects, calls NewSchema and then AppendType for each entry of order (stopping at the first
@@ -441,5 +479,5 @@ func runReal(cfg *Config, order []*TR) (out realOutcome) {
 	}
 	stage = "dump"
 	d, fault := dumpSchema(&s)
-	return realOutcome{OK: true, Dump: d, Fault: fault}
+	return realOutcome{OK: true, Dump: d, Fault: fault, Desc: jsonRound(descOfReal(&s))}
 }
